@@ -20,11 +20,11 @@ from vlib.xl import compile_spec, exc_key
 
 SHEET = 'S'
 SHEET2 = 'T 2'          # needs quoting
-INSHEET = 'In'
+INSHEET = 'In (2) & v1.2+%'     # legal in Excel, hostile to regexes
 COLS = 'ABCD'
 NROWS = 6
 
-CONSTS = [0, 1, 2, 3, 5, -1, 2.5, 10, 100, -4, 7, 0.5]
+CONSTS = [0, 1, 2, 3, 5, -1, 2.5, 10, 100, -4, 7, 0.5, 1000000, 250000.5]
 ODD_CONSTS = ['a', 'b', 'x', '1', '', True, False, None, None]
 SET_VALUES = [0, 1, 2, 3, -1, 2.5, 10, 42, 0.0, 1.0, 7, -7.5, 100,
               True, False, None, None, '', 'a', 'zz', '5', 0, 1]
@@ -36,7 +36,10 @@ def q(sheet):
 
 @st.composite
 def specs(draw, max_formulas=14, with_arrays=True, with_names=True,
-          with_unbounded=True, with_second_sheet=True, odd_values=True):
+          with_unbounded=True, with_second_sheet=True, odd_values=True,
+          with_computed=False, focus=None):
+    """focus='context': always a CSE block and half of the formulas are the
+    range-valued / context-sensitive templates (kinds 28..33)"""
     const = st.sampled_from(CONSTS) if not odd_values else st.one_of(
         st.sampled_from(CONSTS), st.sampled_from(CONSTS),
         st.sampled_from(CONSTS), st.sampled_from(ODD_CONSTS),
@@ -67,7 +70,8 @@ def specs(draw, max_formulas=14, with_arrays=True, with_names=True,
         names['one_cell'] = f'{SHEET}!$A$1'
         names['first_row'] = f'{SHEET}!$A$1:$D$1'
         if draw(st.booleans()):
-            names['two_areas'] = f'{SHEET}!$A$1:$B$1,{INSHEET}!$A$1:$A$2'
+            names['two_areas'] = (f'{SHEET}!$A$1:$B$1,'
+                                  f'{q(INSHEET)}!$A$1:$A$2')
 
     def lower_cells(sheet, row, col):
         """addresses (as written from `sheet`) of cells of lower rank"""
@@ -123,7 +127,9 @@ def specs(draw, max_formulas=14, with_arrays=True, with_names=True,
                 ranges.append(full)
             return text, shape
 
-        kind = draw(st.integers(0, 27))
+        kind = draw(st.integers(0, 33))
+        if focus == 'context' and kind % 2:
+            kind = draw(st.integers(28, 33 if with_computed else 32))
         if kind == 0:
             return f'={ref()}+{ref()}'
         if kind == 1:
@@ -170,7 +176,7 @@ def specs(draw, max_formulas=14, with_arrays=True, with_names=True,
             if full not in ranges:
                 ranges.append(full)
             f = draw(st.sampled_from(['SUM', 'COUNT', 'MAX']))
-            return f'={f}({INSHEET}!{form})+{ref()}'
+            return f'={f}({q(INSHEET)}!{form})+{ref()}'
         if kind == 17 and from_sheet == SHEET:
             # intersection of two rectangles that share a cell
             r = draw(st.integers(1, limit_row - 1))
@@ -186,14 +192,34 @@ def specs(draw, max_formulas=14, with_arrays=True, with_names=True,
         if kind == 22:
             return f'=-{ref()}^2'
         if kind == 23:
-            i = draw(st.sampled_from(inputs[:6]))
-            return f'={i}+{ref()}'
+            i = draw(st.sampled_from(inputs[:5]))
+            isheet, icoord = i.rsplit('!', 1)
+            return f'={q(isheet)}!{icoord}+{ref()}'
         if kind == 24:
             return f'=AND({ref()}>0,{ref()}<10)'
         if kind == 25:
             return f'=ROUND({ref()}/3,2)'
         if kind == 26:
             return f'=COUNTIFS({rect()[0]},"<>"&{ref()})'
+        if kind == 28:
+            # a plain formula whose result is a range (shows its first cell)
+            return f'={rect()[0]}'
+        if kind == 29:
+            return f'=INDEX({rect()[0]},0,1)'
+        if kind == 30:
+            return f'=IFERROR({rect()[0]},{ref()})'
+        if kind == 31:
+            return f'=IFNA({rect()[0]},{ref()})+{ref()}'
+        if kind == 32:
+            return f'=IFS({rect()[0]}>0,{ref()},TRUE,{ref()})'
+        if kind == 33 and with_computed and cells:
+            # a formula whose result is a computed reference to a cell of
+            # lower rank (pycel dereferences a reference only as the result of
+            # a whole formula, not inside an expression)
+            s2, c2, r2 = draw(st.sampled_from(cells))
+            if draw(st.booleans()):
+                return f'=OFFSET({q(SHEET)}!$A$1,{r2 - 1},{ord(c2) - 65})'
+            return f'=INDIRECT("{SHEET}!{c2}{r2}")'
         return f'={ref()}-{ref()}'
 
     # formula rows of the main sheet
@@ -203,8 +229,8 @@ def specs(draw, max_formulas=14, with_arrays=True, with_names=True,
     taken = set()
     made = 0
     # optionally one CSE array block, 2x2 or 1x2, inside the formula rows
-    if with_arrays and draw(st.integers(0, 2)) == 0 and \
-            n_const_rows + 2 <= NROWS:
+    if with_arrays and (draw(st.integers(0, 2)) == 0 or
+                        focus == 'context') and n_const_rows + 2 <= NROWS:
         ar = draw(st.integers(n_const_rows + 1, NROWS - 1))
         ah = draw(st.integers(1, 2))
         aw = 2
@@ -212,9 +238,13 @@ def specs(draw, max_formulas=14, with_arrays=True, with_names=True,
         t, full, shape = rect_text(SHEET, ar, 0)
         form = draw(st.sampled_from(['={T}*2', '={T}+1', '=ABS({T})',
                                      '={T}&"k"', '={T}>1', '={T}',
-                                     '=IF({T}>0,{T},"")']))
+                                     '=IF({T}>0,{T},"")', '={T}*{R}',
+                                     '={R}+{T}']))
+        single = (f'{COLS[draw(st.integers(0, 3))]}'
+                  f'{draw(st.integers(1, ar - 1))}')
         ref = f'{COLS[ac]}{ar}:{COLS[ac + aw - 1]}{ar + ah - 1}'
-        arrays.append(dict(sheet=SHEET, ref=ref, formula=form.format(T=t)))
+        arrays.append(dict(sheet=SHEET, ref=ref,
+                           formula=form.format(T=t, R=single)))
         ranges.append(f'{SHEET}!{ref}')
         if full not in ranges:
             ranges.append(full)
@@ -256,7 +286,7 @@ def specs(draw, max_formulas=14, with_arrays=True, with_names=True,
 
 def _rank(addr):
     sheet, coord = addr.rsplit('!', 1)
-    order = {INSHEET: 0, SHEET: 1, SHEET2: 2}[sheet]
+    order = {SHEET: 1, SHEET2: 2}.get(sheet, 0)
     col = ord(coord[0]) - 65
     return order, int(coord[1:]), col
 
